@@ -289,7 +289,7 @@ def run(ctx):
              ("foreign", "common", False, 2 if q else 3), ("head", "rawish", False, 2 if q else 3), ("select", "tableish", False, 2 if q else 3)]
     if not q:
         plan += [(t, "all", False, 2) for t in ("formatting", "table", "blocks", "foreign", "select", "ruby")]
-        plan += [("formatting", "doc", False, 4), ("table", "doc", False, 4), ("select", "doc", False, 4), ("ruby", "doc", False, 4),
+        plan += [("foreignnames", "doc", False, 3), ("formatting", "doc", False, 4), ("table", "doc", False, 4), ("select", "doc", False, 4), ("ruby", "doc", False, 4),
                  ("doctype", "doc", False, 4), ("head", "rawish", True, 3)]
     ctx.constants = {"plan (theme, containers, scripting, MaxFrags)": plan, "KnownDefects(code-faithful)": listed}
     ctx.rule = ("MC: every string of <= MaxFrags fragments of a theme alphabet (15-34 fragments) x container set x scripting, parsed by "
@@ -308,7 +308,7 @@ def run(ctx):
     # (TLC's simulator evaluates the invariants - and so exports - on every successor it generates: the number of
     #  behaviours is about num x depth x alphabet size)
     for theme, cont, num, depth in (("cover", "doc", 10 if q else 400, 9), ("table", "common", 8 if q else 250, 8),
-                                    ("foreign", "doc", 8 if q else 250, 8)):
+                                    ("foreign", "doc", 8 if q else 250, 8), ("foreignnames", "doc", 6 if q else 250, 9)):
         run_theme(ctx, theme, cont, False, depth, spec_listed, "sim-%s-%s" % (theme, cont), simulate=(num, depth))
     # transition cover (spec-derived tests, judged by TLC with snapshots)
     cjobs = cover_tests(ctx, spec_listed)
